@@ -758,6 +758,11 @@ def run(run):
         C05.ob_shadow_mapping(run, mir, rp, fam)
     except Unsupported as e:
         run.ob("shadow-mapping-encoding", "E2", "kernel is encodable").inconclusive(f"unsupported construct: {e}")
+    try:
+        # every operand of a range / slice is visited, the optional step included: a name that is not defined there is seen (shared with C05)
+        C05.ob_range_operands(run, mir, rp, fam)
+    except Unsupported as e:
+        run.ob("range-operands-encoding", "E2", "kernel is encodable").inconclusive(f"unsupported construct: {e}")
     if run.clean():
         e2.validate_family(run, fam, "definite-assignment")
     rp.close()
